@@ -466,11 +466,14 @@ Definition memn (n : nat) (l : list nat) : bool := existsb (Nat.eqb n) l.
    (3) every identifier of the body occurs in a binding position of the body itself (it is a bound, "macro-local"
        variable in the sense of MACROS.MD: argument of a clause, pattern of let / if let / for);
    (4) it invokes only macros of smaller rank (no recursion). *)
+Definition wf_def_ids (d : mdef) : bool := forallb (wf_ident (OMac (mname d))) (ids_items (mbody d)).
+Definition wf_def_noatt (d : mdef) : bool := forallb no_attached (mbody d).
+Definition wf_def_bound (d : mdef) : bool :=
+  forallb (fun i => mem_str (iname i) (map iname (bv_items (mbody d)))) (ids_items (mbody d)).
+Definition wf_def_rank (rk : nat -> nat) (d : mdef) : bool :=
+  forallb (fun m' => Nat.ltb (rk m') (rk (mname d))) (invs_items (mbody d)).
 Definition wf_def (rk : nat -> nat) (d : mdef) : bool :=
-  forallb (wf_ident (OMac (mname d))) (ids_items (mbody d))
-  && forallb no_attached (mbody d)
-  && forallb (fun i => mem_str (iname i) (map iname (bv_items (mbody d)))) (ids_items (mbody d))
-  && forallb (fun m' => Nat.ltb (rk m') (rk (mname d))) (invs_items (mbody d)).
+  wf_def_ids d && wf_def_noatt d && wf_def_bound d && wf_def_rank rk d.
 
 (* macros usable in head position (HM): no identifiers of their own, invoke only such macros *)
 Definition wf_head_def (HM : list nat) (d : mdef) : bool :=
@@ -497,3 +500,45 @@ Inductive reaches (M : list mdef) : nat -> nat -> Prop :=
 | reach_trans : forall m m' m'', calls M m m' -> reaches M m' m'' -> reaches M m m''.
 (* m is self-referential, directly or mutually, or leads to such a macro *)
 Definition diverges (M : list mdef) (m : nat) : Prop := reaches M m m \/ exists c, reaches M m c /\ reaches M c c.
+
+(* ------------------------------------------------------------------ statically well-formed invocations
+   (every invoked macro is defined, receives as many actuals as it has parameters, an `ident` parameter receives an
+   identifier or an `ident` parameter of the enclosing macro, every `$p` is a declared parameter and stands at a
+   variable position only if it is an `ident` parameter): then the depth budget is the only way an expansion can fail *)
+Definition ok_var (G : list (nat * bool)) (v : var) : bool :=
+  match v with VId _ => true | VPar p => match assoc G p with Some true => true | _ => false end end.
+Definition ok_term (G : list (nat * bool)) (t : term) : bool :=
+  match t with
+  | TV (VId _) => true
+  | TV (VPar p) => match assoc G p with Some _ => true | None => false end
+  | TC _ => true
+  | TF _ xs => forallb (ok_var G) xs
+  end.
+Definition ok_cnd (G : list (nat * bool)) (c : cnd) : bool :=
+  match c with CIf _ xs => forallb (ok_var G) xs | CBind x _ xs => ok_var G x && forallb (ok_var G) xs end.
+Definition ok_act (G : list (nat * bool)) (k : bool) (a : term) : bool :=
+  if k then match a with TV v => ok_var G v | _ => false end else ok_term G a.
+Fixpoint ok_acts (G : list (nat * bool)) (ps : list (nat * bool)) (acts : list term) : bool :=
+  match ps, acts with
+  | [], [] => true
+  | (_, k) :: ps', a :: acts' => ok_act G k a && ok_acts G ps' acts'
+  | _, _ => false
+  end.
+Fixpoint ok_item (M : list mdef) (G : list (nat * bool)) (it : item) : bool :=
+  match it with
+  | IClause _ args cs => forallb (ok_term G) args && forallb (ok_cnd G) cs
+  | ICond c => ok_cnd G c
+  | IGen x _ args => ok_var G x && forallb (ok_var G) args
+  | INeg _ args => forallb (ok_term G) args
+  | IDisj alts => forallb (forallb (ok_item M G)) alts
+  | IInv m acts => match lookup_macro M m with Some d => ok_acts G (mparams d) acts | None => false end
+  end.
+Fixpoint nodupb (l : list nat) : bool := match l with [] => true | a :: l' => negb (memn a l') && nodupb l' end.
+Definition head_shape (it : item) : bool := match it with IClause _ _ [] => true | IInv _ _ => true | _ => false end.
+Definition table_ok (HM : list nat) (M : list mdef) : bool :=
+  forallb (fun d => nodupb (map fst (mparams d)) && forallb (ok_item M (mparams d)) (mbody d)
+                    && (if memn (mname d) HM then forallb head_shape (mbody d) && forallb (fun m' => memn m' HM) (invs_items (mbody d)) else true)) M.
+Definition ok_hitem (M : list mdef) (h : hitem) : bool :=
+  match h with HClause _ args => forallb (ok_term []) args | HInv m acts => ok_item M [] (IInv m acts) end.
+Definition rule_ok (HM : list nat) (M : list mdef) (r : rule) : bool :=
+  forallb (ok_item M []) (rbody r) && forallb (ok_hitem M) (rheads r) && forallb (fun m => memn m HM) (flat_map hinvs (rheads r)).
